@@ -29,6 +29,7 @@ from concurrent.futures import ProcessPoolExecutor
 import numpy
 
 from . import _matrix_frames as mf
+from ._matrix_report import emit_round_robin
 
 MAX_WITNESS_PER_CLASS = 5
 RTOL = 1e-12  # same IEEE operations are expected on every path; slack only for sparse vs dense multiply order
@@ -59,18 +60,61 @@ assert list(dummies.columns) == list(got_levels) and (dummies.values.astype(floa
 '''
 
 
-def _run_sparse_dummies(ctx):
+ALPHABET = ("a", "b", "c", None)
+LEVEL_SPECS = (None, ["a", "b", "c"], ["c", "a", "b"], ["a", "b"], ["b"], ["a", "b", "c", "d"])
+
+
+def _dummy_task(sequences):
     import pandas
 
     from formulaic.utils.sparse import categorical_encode_series_to_sparse_csc_matrix as enc
 
-    alphabet = ("a", "b", "c", None)
-    level_specs = (None, ["a", "b", "c"], ["c", "a", "b"], ["a", "b"], ["b"], ["a", "b", "c", "d"])
     containers = {
         "list": lambda v: list(v),
         "series": lambda v: pandas.Series(v, dtype=object),
         "categorical": lambda v: pandas.Categorical(v),
     }
+    n_eval, keys, samples, failures = 0, set(), [], []
+    for values in sequences:
+        for levels in LEVEL_SPECS:
+            for drop_first in (False, True):
+                for cname, make in containers.items():
+                    key = (values, tuple(levels) if levels else None, drop_first, cname)
+                    n_eval += 1
+                    if any(v is not None for v in values):
+                        keys.add(_digest(key))
+                    if len(samples) < 1:
+                        samples.append({"values": values, "levels": levels, "drop_first": drop_first, "container": cname})
+                    exp_levels = list(levels) if levels is not None else sorted({v for v in values if v is not None})
+                    if drop_first:
+                        exp_levels = exp_levels[1:]
+                    exp = numpy.array([[1.0 if v == lv else 0.0 for lv in exp_levels] for v in values]).reshape(
+                        len(values), len(exp_levels))
+                    status, detail = "ok", ""
+                    try:
+                        with warnings.catch_warnings():
+                            warnings.simplefilter("ignore")
+                            got_levels, got = enc(make(values), levels=levels, drop_first=drop_first)
+                    except Exception as e:  # outcome of the code under test
+                        status, detail = f"raises-{type(e).__name__}", f"{type(e).__name__}: {e}"
+                    else:
+                        dummies = pandas.get_dummies(pandas.Categorical(list(values), categories=levels), drop_first=drop_first)
+                        if list(got_levels) != exp_levels:
+                            status, detail = "levels", f"levels {list(got_levels)} expected {exp_levels}"
+                        elif got.shape != exp.shape or not (got.toarray() == exp).all():
+                            status, detail = "indicator", f"got {got.toarray().tolist()} expected {exp.tolist()}"
+                        elif list(dummies.columns) != exp_levels or not (dummies.values.astype(float) == got.toarray()).all():
+                            status, detail = "vs-get_dummies", f"get_dummies gives {dummies.values.tolist()} columns {list(dummies.columns)}"
+                    if status != "ok":
+                        cls = f"{status}:{'levels-given' if levels is not None else 'levels-inferred'}:{'drop' if drop_first else 'nodrop'}"
+                        failures.append((cls, list(values), levels, drop_first, cname, detail))
+    return n_eval, keys, samples, failures
+
+
+def _run_sparse_dummies(ctx):
+    maxlen = 4 if ctx.thorough else 3
+    seqs = [v for n in range(1, maxlen + 1) for v in itertools.product(ALPHABET, repeat=n)]
+    chunks = [seqs[i::32] for i in range(32)]
     seen = {}
     with ctx.bounded(
         "sparse-dummies",
@@ -79,48 +123,22 @@ def _run_sparse_dummies(ctx):
              "indicator of level j, nulls and values outside the levels give an all-zero row; also equal to "
              "pandas.get_dummies of the same Categorical",
         exhaustive=True,
-        bound="all sequences of length 1..4 over {a, b, c, null}; levels in {None, abc, cab, ab, b, abcd}; drop_first on/off; "
-              "containers list / object Series / Categorical",
+        bound=f"all sequences of length 1..{maxlen} over {{a, b, c, null}}; levels in {{None, abc, cab, ab, b, abcd}}; "
+              "drop_first on/off; containers list / object Series / Categorical",
     ) as b:
-        for n in (1, 2, 3, 4):
-            for values in itertools.product(alphabet, repeat=n):
-                for levels in level_specs:
-                    for drop_first in (False, True):
-                        for cname, make in containers.items():
-                            key = (values, tuple(levels) if levels else None, drop_first, cname)
-                            b.case(key, nontrivial=any(v is not None for v in values),
-                                   sample={"values": values, "levels": levels, "drop_first": drop_first, "container": cname})
-                            exp_levels = list(levels) if levels is not None else sorted({v for v in values if v is not None})
-                            if drop_first:
-                                exp_levels = exp_levels[1:]
-                            exp = numpy.array([[1.0 if v == lv else 0.0 for lv in exp_levels] for v in values]).reshape(
-                                len(values), len(exp_levels))
-                            status, detail = "ok", ""
-                            try:
-                                with warnings.catch_warnings():
-                                    warnings.simplefilter("ignore")
-                                    got_levels, got = enc(make(values), levels=levels, drop_first=drop_first)
-                            except Exception as e:
-                                status, detail = f"raises-{type(e).__name__}", f"{type(e).__name__}: {e}"
-                            else:
-                                dummies = pandas.get_dummies(pandas.Categorical(list(values), categories=levels), drop_first=drop_first)
-                                if list(got_levels) != exp_levels:
-                                    status, detail = "levels", f"levels {list(got_levels)} expected {exp_levels}"
-                                elif got.shape != exp.shape or not (got.toarray() == exp).all():
-                                    status, detail = "indicator", f"got {got.toarray().tolist()} expected {exp.tolist()}"
-                                elif list(dummies.columns) != exp_levels or not (dummies.values.astype(float) == got.toarray()).all():
-                                    status, detail = "vs-get_dummies", f"get_dummies gives {dummies.values.tolist()} columns {list(dummies.columns)}"
-                            if status == "ok":
-                                continue
-                            cls = f"{status}:{'levels-given' if levels is not None else 'levels-inferred'}:{'drop' if drop_first else 'nodrop'}"
-                            seen[cls] = seen.get(cls, 0) + 1
-                            if seen[cls] <= MAX_WITNESS_PER_CLASS:
-                                b.fail(clause="C05.sparse-dummies.indicator",
-                                       witness={"values": list(values), "levels": levels, "drop_first": drop_first, "container": cname,
-                                                "cls": cls,
-                                                "code": DUMMY_WITNESS.format(values=list(values), levels=levels,
-                                                                             drop_first=drop_first, container=cname)},
-                                       detail=detail)
+        collected = []
+        with ProcessPoolExecutor(16) as ex:
+            for n_eval, keys, samples, failures in ex.map(_dummy_task, chunks):
+                b.add_counts(n_eval, keys, samples)
+                collected.extend(failures)
+        collected.sort(key=lambda f: (len(f[1]), repr(f)))
+        for cls, values, levels, drop_first, cname, detail in collected:
+            seen[cls] = seen.get(cls, 0) + 1
+            if seen[cls] <= MAX_WITNESS_PER_CLASS:
+                b.fail(clause="C05.sparse-dummies.indicator",
+                       witness={"values": values, "levels": levels, "drop_first": drop_first, "container": cname, "cls": cls,
+                                "code": DUMMY_WITNESS.format(values=values, levels=levels, drop_first=drop_first, container=cname)},
+                       detail=detail)
         for cls, n in seen.items():
             ctx.notes.append(f"C05.sparse-dummies.indicator cls={cls}: {n} failing cases in total")
 
@@ -173,12 +191,19 @@ def _formulas_for_frame(spec, seed, frame_index, count):
 
 
 def _canon(mm, output):
-    """(names, float matrix, label problem) of a ModelMatrix."""
+    """(names, float matrix, problem) of a ModelMatrix; problem = label / container-type complaint."""
+    import pandas
+    import scipy.sparse
+
     names = tuple(mm.model_spec.column_names)
-    raw = mm.toarray() if output == "sparse" else numpy.asarray(mm)
+    raw = mm.toarray() if hasattr(mm, "toarray") else numpy.asarray(mm)
     problem = None
-    if output == "pandas" and tuple(str(c) for c in mm.columns) != tuple(str(c) for c in names):
-        problem = f"DataFrame labels {list(mm.columns)} != model_spec.column_names {list(names)}"
+    expected_type = {"pandas": pandas.DataFrame, "numpy": numpy.ndarray,
+                     "sparse": (scipy.sparse.spmatrix, getattr(scipy.sparse, "sparray", scipy.sparse.spmatrix))}[output]
+    if not isinstance(mm, expected_type):
+        problem = f"container-type: output={output!r} returned {type(getattr(mm, '__wrapped__', mm)).__name__}"
+    elif output == "pandas" and tuple(str(c) for c in mm.columns) != tuple(str(c) for c in names):
+        problem = f"pandas-labels: DataFrame labels {list(mm.columns)} != model_spec.column_names {list(names)}"
     try:
         X = numpy.asarray(raw, dtype=float)
     except (ValueError, TypeError):
@@ -239,10 +264,18 @@ def canon(route, output):
         mm = build(route, output)
     except Exception as e:
         return ("raises", type(e).__name__)
-    raw = mm.toarray() if output == "sparse" else numpy.asarray(mm)
+    raw = mm.toarray() if hasattr(mm, "toarray") else numpy.asarray(mm)
+    import scipy.sparse
+    want = {{"pandas": pandas.DataFrame, "numpy": numpy.ndarray,
+            "sparse": (scipy.sparse.spmatrix, getattr(scipy.sparse, "sparray", scipy.sparse.spmatrix))}}[output]
+    assert isinstance(mm, want), f"output={{output!r}} returned a {{type(mm.__wrapped__).__name__}}"
     if output == "pandas":
         assert [str(c) for c in mm.columns] == [str(c) for c in mm.model_spec.column_names], "DataFrame labels differ from model_spec.column_names"
-    return (tuple(mm.model_spec.column_names), numpy.asarray(raw, dtype=float))
+    try:
+        X = numpy.asarray(raw, dtype=float)
+    except (ValueError, TypeError):
+        X = numpy.asarray(raw, dtype=object)
+    return (tuple(mm.model_spec.column_names), X)
 a = canon({ref_route!r}, {ref_output!r})
 b = canon({route!r}, {output!r})
 print({ref_route!r}, {ref_output!r}, a)
@@ -250,6 +283,7 @@ print({route!r}, {output!r}, b)
 assert (a[0] == "raises") == (b[0] == "raises"), "one route raises, the other does not"
 if a[0] != "raises":
     assert a[0] == b[0], "column names / order differ"
+    assert a[1].dtype != object and b[1].dtype != object, "a matrix holds non-numeric entries"
     assert a[1].shape == b[1].shape and numpy.allclose(a[1], b[1], rtol={rtol!r}, atol=0, equal_nan=True), "numbers differ"
 '''
 
@@ -261,10 +295,14 @@ def _compare(ref, other):
             return None
         return "raises-vs-result", f"reference {ref[:3] if ref[0] == 'raises' else 'builds'}; this route {other[:3] if other[0] == 'raises' else 'builds'}"
     if other[3]:
-        return "pandas-labels", other[3]
+        return other[3].split(":")[0], other[3]
     if ref[1] != other[1]:
         what = "names-order" if sorted(map(str, ref[1])) == sorted(map(str, other[1])) else "names"
         return what, f"reference {list(ref[1])} this route {list(other[1])}"
+    if ref[2].ndim == 2 and other[2].ndim == 2 and ref[2].shape[1] == 0 and other[2].shape[1] == 0:
+        # no numbers on either side: the statement compares numbers and column order only (the row count of an
+        # EMPTY matrix is not judged; see the driver report)
+        return None
     if ref[2].shape != other[2].shape:
         return "shape", f"reference {ref[2].shape} this route {other[2].shape}"
     if ref[2].dtype == object or other[2].dtype == object:
@@ -317,11 +355,8 @@ def _classify(clause, route, output, what, traits, na, ref, res):
         who = f"entry({route})"
     else:
         who = ROUTE_GROUP[route]
-    zero_cols = any(r[0] == "ok" and r[2].ndim == 2 and r[2].shape[1] == 0 for r in (ref, res))
     if "str-dtype" in traits:
         kind = "str-dtype"
-    elif what == "shape" and zero_cols:
-        kind = "zero-columns-row-count"
     elif who == "narwhals-arrow" and what in ("names", "names-order") and "category-levels-unsorted-or-unobserved" in traits:
         kind = "dictionary-level-order"
     elif who == "narwhals-arrow" and what == "values" and "category-null" in traits and na == "ignore":
@@ -378,6 +413,22 @@ def _agree_task(args):
                 traits = _frame_traits(spec, formula)
                 for (route, output), res in results.items():
                     if (route, output) == ref_key:
+                        if res[0] != "ok" or not res[3]:
+                            continue
+                        # the reference itself has a label / container problem
+                        res_for_ref = ("ok", res[1], res[2], None)
+                        results_ref_backup = res_for_ref
+                        verdict = (res[3].split(":")[0], res[3])
+                        clause, this_ref_key = "C05.outputs.agree", ref_key
+                        what, detail = verdict
+                        cls = _classify(clause, route, output, what, traits, na, res_for_ref, res)
+                        totals[(clause, cls)] = totals.get((clause, cls), 0) + 1
+                        if totals[(clause, cls)] <= 2:
+                            code = AGREE_WITNESS.format(frame=mf.frame_code(spec), formula=formula, opts=opts, ref_route=route,
+                                                        ref_output=output, route=route, output=output, rtol=RTOL)
+                            failures.append((clause, {"formula": formula, "frame": mf.spec_summary(spec), "options": opts,
+                                                      "route": route, "output": output, "reference": list(ref_key),
+                                                      "traits": traits, "what": what, "cls": cls, "code": code}, detail))
                         continue
                     # outputs clause: same route (sugar) across outputs; entry/materializer clauses: same output
                     if route == "sugar":
@@ -404,7 +455,7 @@ def _agree_task(args):
 def _run_agree(ctx):
     plain = mf.small_frame_specs(ctx.seed, ctx.thorough, nulls=False)
     withnull = mf.null_frame_specs(ctx.seed, ctx.thorough)
-    nformulas = 24 if ctx.thorough else 10
+    nformulas = 24 if ctx.thorough else 16
     nparts = 2
     tasks = []
     for fi, spec in enumerate(plain):
@@ -430,12 +481,7 @@ def _run_agree(ctx):
                     totals[k] = totals.get(k, 0) + v
                 collected.extend(failures)
         collected.sort(key=lambda f: (len(f[1]["formula"]), len(f[1]["code"]), f[1]["formula"], f[1]["output"], f[1]["route"]))
-        reported = {}
-        for clause, witness, detail in collected:
-            k = (clause, witness["cls"])
-            reported[k] = reported.get(k, 0) + 1
-            if reported[k] <= MAX_WITNESS_PER_CLASS:
-                b.fail(clause=clause, witness=witness, detail=detail)
+        emit_round_robin(b, collected, MAX_WITNESS_PER_CLASS)
         for (clause, cls), n in sorted(totals.items()):
             ctx.notes.append(f"{clause} cls={cls}: {n} disagreeing (case, route, output) triples in total")
 
@@ -443,6 +489,9 @@ def _run_agree(ctx):
 def run_bounded(ctx):
     _run_sparse_dummies(ctx)
     _run_agree(ctx)
+    if not ctx.explanation:  # the proofs module normally sets this; keeps the evidence schema-valid on its own
+        ctx.explanation = ("bounded stand-in: the same formula/data/options through 3 outputs x 6 entry points x 3 materializer "
+                           "inputs compared element-wise; sparse dummy encoder against the indicator contract and get_dummies")
     ctx.assume(
         "A-same-data: pyarrow.Table.from_pandas(frame) is 'the same data' as the frame (categoricals become dictionary "
         "arrays with the same dictionary order, NaN/None become nulls)",
